@@ -750,6 +750,12 @@ def explore(world, run_path, max_paths=4000):
             res = PathResult(out[0], out[1], ctx)
         except PathEnd:
             res = PathResult('end', None, ctx)
+        except (z3.Z3Exception, AttributeError, TypeError) as e:
+            # a value of a shape the interpreter has no term for reached an operation that needs one (typically an opaque
+            # result of an unmodelled library call used as a string / number): this path is outside the subset
+            import traceback
+            where = traceback.extract_tb(e.__traceback__)[-1]
+            res = PathResult('oos', 'the interpreter cannot represent a value on this path (%s: %s at %s:%d)' % (type(e).__name__, str(e)[:120], where.filename.split('/')[-1], where.lineno), ctx)
         except OutOfSubset as e:
             res = PathResult('oos', str(e), ctx)
             # the fast feasibility check over-approximates (string atoms are free): before reporting a construct
